@@ -164,6 +164,10 @@ def main(tier):
                         dcases.append('(mkDFmt %s %s %s %s %s)' % (cnat(cid), c04.c_diff(dt, rn), cstr(do['txt'].get('out', '')), cstr(do['md'].get('out', '')), cstr(do['csv'].get('out', ''))))
             # exposure sections: every format must hold exactly the exposure entries of the API result
             xw = [(k + i, c06.ip_only_world(run.rng) if i % 4 == 3 else c06.gen_case(run.rng, motif=('nsexpr' if i % 8 == 1 else 'mixed' if i % 8 == 5 else None))) for i in range(max(4, len(metas) // 2))]
+            for j_, (cid_, W_) in enumerate(xw):
+                if j_ % 5 == 2 and W_['workloads']:
+                    # a peer string longer than any column width one might assume
+                    W_['workloads'][0]['name'] = 'w' + 'y' * 61
             xcmds = []
             for cid, W in xw:
                 dx = h.dir_for('x%d' % cid)
